@@ -54,6 +54,8 @@ def linked_outcomes(pkg, base):
                 out[target] = ("data", fh.read())
         except InvalidFileReferenceError as e:
             out[target] = ("error", str(e))
+        except Exception as e:      # anything else will resurface when the conversion opens the image
+            out[target] = ("error", "unexpected %s" % type(e).__name__)
     return out
 
 
